@@ -613,6 +613,9 @@ class Scores:
     ):
         scores = scores.astype(float)  # Otherwise we can get problems with nextafter
 
+        # The end points of the scale are honoured exactly, whatever the continuity.
+        at_min = target_ratio <= 0.0
+        at_max = target_ratio >= 1.0
         if not left_continuous:
             min_ratio = 1.0 / len(scores)
             target_ratio = target_ratio - min_ratio
@@ -637,6 +640,8 @@ class Scores:
         # Special cases of TPR <= 0. and TPR >= 1.
         threshold[target_ratio <= 0.0] = np.nextafter(scores[0], -np.inf)
         threshold[target_ratio >= 1.0] = np.nextafter(scores[-1], np.inf)
+        threshold[at_min] = np.nextafter(scores[0], -np.inf)
+        threshold[at_max] = np.nextafter(scores[-1], np.inf)
 
         return threshold
 
